@@ -138,8 +138,127 @@ def replay_sequence(d):
     return False, 'sequence leaves the listing as if positioned directly: %r' % (d,)
 
 
+
+
+# ---------------------------------------------------------------------------
+# file-level tier: the real reader on a real temporary file written from the model
+
+def _file_expected(k, kind, arg, n, times, steps):
+    if kind == 'first': return 0, None
+    if kind == 'last': return n - 1, None
+    if kind == 'next': return min(k + 1, n - 1), k < n - 1
+    if kind == 'prev': return max(k - 1, 0), k > 0
+    if kind == 'index': return int(arg) % n, None
+    if kind in ('time', 'step'):
+        xs = [Fraction(x) for x in (times if kind == 'time' else steps)]
+        a = Fraction(arg)
+        best = min(abs(x - a) for x in xs)
+        return [i for i, x in enumerate(xs) if abs(x - a) == best][0], None
+    return k, None
+
+
+def replay_file(d):
+    """All recorded actions since the reader was opened are repeated on the real t2listing reading a real
+    temporary file (shipped listing with the model's digits / signs); after the last one the reader is
+    compared with a second reader opened fresh on the same file and positioned with index = k, and with
+    the numbers printed in the file for result set k (plain-text scan of c06_common)."""
+    import os, sys, shutil, signal, tempfile
+    sys.path.insert(0, os.path.dirname(os.path.abspath(__file__)))
+    import c05_common as cc
+    import c06_common as c6
+    import replay_C06 as r6
+    import t2listing
+    repo = os.environ.get('PYTOUGH_REPO', '/repo')
+    path = os.path.join(repo, d['file'])
+    raw = cc.read_lines(path)
+    lines = c6.apply_substitutions(raw, d.get('substitutions') or {})
+    fam = cc.family_of(lines)
+    skip = list(d.get('skip_tables') or [])
+    nsub = sum(len(v) for v in (d.get('substitutions') or {}).values())
+    tmp = tempfile.mkdtemp(prefix='c07replay')
+    try:
+        p2 = os.path.join(tmp, os.path.basename(path))
+        with open(p2, 'wb') as fh: fh.write(''.join(lines).encode('latin-1'))
+        head = '%s (%d characters substituted%s), clause %s, actions %s: ' % (
+            d['file'], nsub, ', skip_tables=%r' % skip if skip else '', d.get('clause'),
+            ' > '.join('%s%s' % (a[0], '' if a[1] == 'history' or a[2] is None else '=%r' % (a[2],)) for a in d['actions'][-4:]))
+        sets = c6.scan_sets(lines, fam)
+        fullk = [i for i, s in enumerate(sets) if not s['short']]
+        n = len(fullk)
+        times = [sets[i]['time'] for i in fullk]; steps = [sets[i]['step'] for i in fullk]
+        def alarm(sig, frm): raise c6.NonTermination('no return within 60 s')
+        try:
+            lst = t2listing.t2listing(p2, skip_tables=list(skip))
+        except Exception as ex:
+            return True, head + 't2listing() raised %s: %s' % (type(ex).__name__, str(ex)[:100])
+        k = 0
+        budget = c6.budget(len(lines), len(sets))
+        for a in d['actions']:
+            label, kind, arg = a
+            want, moved_want = _file_expected(k, kind, arg, n, times, steps)
+            cf = r6.CountingFile(lst._file, budget)
+            lst._file = cf
+            old = signal.signal(signal.SIGALRM, alarm); signal.setitimer(signal.ITIMER_REAL, 60)
+            try:
+                moved = None
+                if kind == 'first': lst.first()
+                elif kind == 'last': lst.last()
+                elif kind == 'next': moved = lst.next()
+                elif kind == 'prev': moved = lst.prev()
+                elif kind == 'index': lst.index = int(arg)
+                elif kind == 'time': lst.time = arg
+                elif kind == 'step': lst.step = int(arg)
+                elif kind == 'history':
+                    sel = [(x[0], tuple(x[1]) if isinstance(x[1], list) else x[1], x[2]) for x in arg['selection']]
+                    lst.history(sel[0] if arg.get('form') == 'tuple' else sel, short=arg.get('short', True))
+            except c6.NonTermination as ex:
+                return True, head + 'terminates: %s from index %d does not return: %s' % (label, k, ex)
+            except Exception as ex:
+                return True, head + 'no-exception: %s from index %d raised %s: %s' % (label, k, type(ex).__name__, str(ex)[:100])
+            finally:
+                signal.setitimer(signal.ITIMER_REAL, 0); signal.signal(signal.SIGALRM, old)
+                lst._file = cf.f
+            if not (0 <= int(lst.index) < n) or int(lst.index) != want:
+                return True, head + 'index: after %s from index %d the reported index is %r, the property prescribes %d of %d' % (label, k, lst.index, want, n)
+            if moved_want is not None and bool(moved) != moved_want:
+                return True, head + 'moved: %s() from index %d of %d returned %r' % (kind, k, n, moved)
+            k = want
+        ref = t2listing.t2listing(p2, skip_tables=list(skip))
+        ref.index = k
+        if (lst.index, lst.time, lst.step) != (ref.index, ref.time, ref.step):
+            return True, head + 'time-step: index/time/step %r, a fresh reader positioned at %d shows %r' % ((lst.index, lst.time, lst.step), k, (ref.index, ref.time, ref.step))
+        if float(ref.time) != times[k]:
+            return True, head + 'time-step: fresh reader at index %d reports time %r, the file prints %r' % (k, ref.time, times[k])
+        if sorted(lst._table) != sorted(ref._table):
+            return True, head + 'tables: %r versus %r in a fresh reader' % (sorted(lst._table), sorted(ref._table))
+        for tn in ref._tablenames:
+            a, b = lst._table[tn], ref._table[tn]
+            if list(a.row_name) != list(b.row_name) or a._data.shape != b._data.shape:
+                return True, head + 'tables: rows of table %s differ from those of a fresh reader' % tn
+            if not np.array_equal(a._data, b._data):
+                i, j = [int(x[0]) for x in np.nonzero(a._data != b._data)]
+                return True, head + 'tables: table %s row %d (%r) column %s shows %r, a fresh reader positioned at index %d shows %r' % (
+                    tn, i, a.row_name[i], a.column_name[j], a._data[i, j], k, b._data[i, j])
+        # both readers against the printed numbers of result set k
+        P = r6._Printed(lines, fam, ref)
+        for tn in ref._tablenames:
+            tab = ref._table[tn]
+            for r in range(tab.num_rows):
+                for col in tab.column_name:
+                    pv = P.value(tn, r, fullk[k], col)
+                    if pv in ('n/a', None): continue
+                    v = tab[r][col]
+                    if not (v == pv):
+                        return True, head + 'printed-value: table %s row %d (%r) column %s: both readers show %r at index %d, the file prints %r there' % (
+                            tn, r, tab.row_name[r], col, v, k, pv)
+        return False, head + 'after %d actions the reader equals a fresh reader positioned at index %d and the printed numbers' % (len(d['actions']), k)
+    finally:
+        shutil.rmtree(tmp, ignore_errors=True)
+
+
 def replay(d):
     import numpy as np
+    if d.get('kind') == 'file': return replay_file(d)
     import t2listing as T
     if 'sequence' in d: return replay_sequence(d)
     if d.get('action') == 'badhist': return replay_badhist(d)
